@@ -5,6 +5,8 @@
 (2) correspondence of the kernels the theorems are about (element-wise recurrences and
     arithmetic) with the Lean model, at D and at a truncation D'."""
 import numpy as np
+import algopy
+from algopy import UTPM
 from common import *
 import ops
 from props import c01
@@ -70,7 +72,33 @@ def branch_fails(case):
     return None
 
 
+def driver_more_coefficients_fails(case):
+    """the forward drivers read fixed orders (Jacobian, J v: order 1; Hessian, H v: order 2): evaluating the seeded polynomial with
+    MORE coefficients (the seed padded with vanishing higher orders) never changes the derivatives already obtained"""
+    x0, v = np.array(case['x']), np.array(case['v'])
+    N = x0.size
+    f = lambda x: algopy.sin(x[0]) * x[1] + x[0] * x[1] * x[N - 1] + algopy.exp(x[N - 1] * 0.5) * x[0] * x[0]
+    for nm, init, ext in (('jacobian', lambda: UTPM.init_jacobian(x0), lambda y: UTPM.extract_jacobian(y)),
+                          ('jac_vec', lambda: UTPM.init_jac_vec(x0, v), lambda y: UTPM.extract_jac_vec(y)),
+                          ('hessian', lambda: UTPM.init_hessian(x0), lambda y: UTPM.extract_hessian(N, y)),
+                          ('hess_vec', lambda: UTPM.init_hess_vec(x0, v), lambda y: UTPM.extract_hess_vec(N, y))):
+        seed = init()
+        want = np.array(ext(f(seed)))
+        for extra in (1, 2):
+            padded = UTPM(np.concatenate([seed.data, np.zeros((extra,) + seed.data.shape[1:])], axis=0))
+            try:
+                got = np.array(ext(f(padded)))
+            except Exception as ex:
+                return 'driver-more-coefficients-exception: extract_%s of a result with %d more coefficient(s) raised %s' % (nm, extra, type(ex).__name__)
+            if got.shape != want.shape or not np.allclose(got, want, rtol=1e-13, atol=1e-14):
+                return 'driver-more-coefficients: extract_%s of the program evaluated with %d more coefficient(s) differs from the result with the seeded degree (max diff %s)' % (
+                    nm, extra, maxdiff(got, want))
+    return None
+
+
 def run_case(ctx, case):
+    if case.get('op') == 'driver-more-coefficients':
+        return driver_more_coefficients_fails(case)
     if case.get('op') == 'cmp':
         return branch_fails(case)
     if 'prog' in case:
@@ -83,6 +111,13 @@ def run_case(ctx, case):
 
 
 def run(ctx):
+    for N_ in (2, 3):
+        case = {'op': 'driver-more-coefficients', 'x': rand_coeffs(ctx.rng, (N_,), -1, 1), 'v': rand_coeffs(ctx.rng, (N_,), -1, 1)}
+        ctx.evaluations += 1
+        ctx.count('driver-more-coefficients')
+        f_ = driver_more_coefficients_fails(case)
+        if f_:
+            ctx.report(case, 'failure', f_)
     names = sorted(n for n in ops.OPS if 'no-trunc' not in ops.OPS[n]['tags'])
     n = len(names) * (6 if ctx.tier == 'quick' else 80)
     for i in range(n):
